@@ -64,12 +64,17 @@ def gen_define(fmts, maxvars, quick):
                     # CDF-5: a huge variable must be last in file order, otherwise later offsets leave the 63-bit range (not a rule the property states)
                     order = [i for i in range(nv) if kinds[i] == 'F'] + [i for i in range(nv) if kinds[i] == 'R']
                     if any(s.startswith('a63') for s in sizes) and (len([s for s in sizes if s.startswith('a63')]) > 1 or not sizes[order[-1]].startswith('a63')): continue
-                    for fi in range(2 if not quick else 1):
-                        c = Case('DEF-f%d-%s-%s-%d' % (fmt, ''.join(kinds), '.'.join(sizes), fi), 1)
+                    for fi, via_redef in [(f_, False) for f_ in range(2 if not quick else 1)] + ([(0, True)] if nv >= 2 else []):
+                        # via_redef: the last variable is added in a later define-mode session (header space reserved, so no data moves)
+                        if via_redef and expected_enddef(fmt, [(kinds[i], C[sizes[i]][0][0]) for i in range(nv - 1)]) != {0}: continue
+                        c = Case('DEF-f%d-%s-%s-%d%s' % (fmt, ''.join(kinds), '.'.join(sizes), fi, '-redef' if via_redef else ''), 1)
                         c.op('*', 'create', f=0, path='a.nc', fmt=fmt, hints=TIGHT)
                         c.op('*', 'def_dim', f=0, name='t', unlim=1)
                         nd = 1; lines = []; vv = []
                         for i in range(nv):
+                            if via_redef and i == nv - 1:
+                                lines.append(c.op('*', '_enddef', f=0, h_minfree=2048, v_align=4, v_minfree=0, r_align=4))
+                                lines.append(c.op('*', 'redef', f=0))
                             cls = C[sizes[i]]; b_, xt, dims = cls[fi % len(cls)]
                             dimids = []
                             for L in dims:
